@@ -130,6 +130,34 @@ fn handshake_decoder_is_total_and_accepts_only_signed_messages() {
             report("well-formed ping with an unmatched key hash and the signature (R = 1, S = 0) that verifies under the all-zero key", &m, feed(&m, &trusted), false, &mut failing);
         }
     }
+    // (e) C06: the advertised cipher list survives the wire - every subset of {plain, aes128, aes256, chacha20} in every order
+    {
+        let (_a2, _b2, _t2) = pair();
+        let rng = SystemRandom::new();
+        let pkcs8 = Ed25519KeyPair::generate_pkcs8(&rng).unwrap();
+        let kp = Ed25519KeyPair::from_pkcs8(pkcs8.as_ref()).unwrap();
+        let mut pk = [0u8; ED25519_PUBLIC_KEY_LEN];
+        pk.clone_from_slice(kp.public_key().as_ref());
+        let all: [&'static Algorithm; 3] = [&AES_128_GCM, &AES_256_GCM, &CHACHA20_POLY1305];
+        let orders: [[usize; 3]; 6] = [[0, 1, 2], [0, 2, 1], [1, 0, 2], [1, 2, 0], [2, 0, 1], [2, 1, 0]];
+        for mask in 0..8u8 { for order in orders.iter() { for &plain in [false, true].iter() {
+            let list: SmallVec<[(&'static Algorithm, f32); 3]> = order.iter().filter(|i| mask & (1 << **i) != 0).map(|i| (all[*i], 100.0 + *i as f32)).collect();
+            let msg = InitMsg::Ping { salted_node_id_hash: [7; 20], ecdh_public_key: EcdhPublicKey::new(&X25519, smallvec![9; 32]), algorithms: Algorithms { algorithm_speeds: list.clone(), allow_unencrypted: plain } };
+            let mut buf = [0u8; 400];
+            let n = msg.write_to(&mut buf, &kp).unwrap();
+            match InitMsg::read_from(&buf[..n], &[pk]) {
+                Ok((InitMsg::Ping { algorithms, .. }, _)) => {
+                    let same = algorithms.allow_unencrypted == plain && algorithms.algorithm_speeds.len() == list.len()
+                        && algorithms.algorithm_speeds.iter().zip(list.iter()).all(|(x, y)| x.0 == y.0 && x.1 == y.1);
+                    if !same {
+                        failing += 1;
+                        if failing <= 3 { println!("FAILING-INPUT: a ping advertising {} cipher(s) in order {:?} (subset mask {:#05b}) with plain={} is read back with {} cipher(s), plain={}: the advertised list does not reach the negotiation unaltered", list.len(), order, mask, plain, algorithms.algorithm_speeds.len(), algorithms.allow_unencrypted); }
+                    }
+                }
+                _ => { failing += 1; if failing <= 3 { println!("FAILING-INPUT: a genuine ping advertising {} cipher(s), plain={} is not read back as a ping", list.len(), plain); } }
+            }
+        } } }
+    }
     panic::set_hook(hook);
     assert_eq!(failing, 0);
 }
